@@ -42,6 +42,10 @@ func vBlockRoundTrip[T any](l vLeafSpec[T]) {
 		vHostileColumn(l)
 		return
 	}
+	if vMode == 5 {
+		vHistory(l)
+		return
+	}
 	n := verifIntRange("rows", 0, verifParam("maxrows", 3))
 	m := 0
 	if vMode == 0 {
@@ -286,3 +290,80 @@ func vHostileColumn[T any](l vLeafSpec[T]) {
 func VerifC06GenLeaves()   { vMode = 4; VerifC01GenLeaves() }
 func VerifC06PlainLeaves() { vMode = 4; VerifC01PlainLeaves() }
 func VerifC06Composites()  { vMode = 4; VerifC01Composites() }
+
+// vHistory (C16): after any history of appends, resets, encodes, decodes and failed
+// decodes the column encodes exactly like a fresh column holding the model values.
+func vHistory[T any](l vLeafSpec[T]) {
+	version := 54460
+	c := l.mk()
+	var model []T
+	check := func(label string) {
+		verifAssert(c.Rows() == len(model), "rows==model")
+		var b Buffer
+		blk := Block{Columns: 1, Rows: len(model)}
+		err := blk.EncodeRawBlock(&b, version, []InputColumn{{Name: "c", Data: c}})
+		verifAssert(err == nil, "history-encode-ok")
+		// read the produced bytes back into a fresh column and compare with the model
+		fresh := l.mk()
+		var d Block
+		err = d.DecodeRawBlock(NewReader(bytes.NewReader(b.Buf)), version, Results{{Name: "c", Data: fresh}})
+		verifAssert(err == nil, "readback-ok")
+		eq := vAnd(d.Rows == len(model), fresh.Rows() == len(model))
+		for i := 0; i < len(model) && i < fresh.Rows(); i++ {
+			eq = vAnd(eq, l.eq(l.row(fresh, i), model[i]))
+		}
+		verifAssert(eq, "encoded==model")
+		verifObserveBytes(label, b.Buf)
+	}
+	wire := func(k int) ([]T, []byte) {
+		src := l.mk()
+		vals := make([]T, k)
+		for i := range vals {
+			vals[i] = l.gen()
+			l.app(src, vals[i])
+		}
+		var b Buffer
+		blk := Block{Columns: 1, Rows: k}
+		if err := blk.EncodeRawBlock(&b, version, []InputColumn{{Name: "c", Data: src}}); err != nil {
+			verifFail("wire-encode")
+		}
+		return vals, b.Buf
+	}
+	steps := verifIntRange("steps", 1, verifParam("maxsteps", 3))
+	for s := 0; s < steps; s++ {
+		switch verifChoice("step", 5) {
+		case 0: // append
+			v := l.gen()
+			l.app(c, v)
+			model = append(model, v)
+		case 1: // reset
+			c.Reset()
+			model = nil
+		case 2: // encode (and compare) without reset: re-sends the same rows
+			check("mid")
+		case 3: // block decode into the used column (the library resets the target first)
+			vals, data := wire(verifIntRange("k", 0, 2))
+			var d Block
+			err := d.DecodeRawBlock(NewReader(bytes.NewReader(data)), version, Results{{Name: "c", Data: c}})
+			verifAssert(err == nil, "reuse-decode-ok")
+			model = vals
+			eq := c.Rows() == len(vals)
+			for i := 0; i < len(vals) && i < c.Rows(); i++ {
+				eq = vAnd(eq, l.eq(l.row(c, i), vals[i]))
+			}
+			verifAssert(eq, "reuse-decode==fresh-values")
+		case 4: // failed decode of a truncated block, then reset
+			_, data := wire(1 + verifIntRange("k", 0, 1))
+			var d Block
+			err := d.DecodeRawBlock(NewReader(bytes.NewReader(data[:len(data)-1])), version, Results{{Name: "c", Data: c}})
+			verifAssert(err != nil, "truncated-rejected")
+			c.Reset()
+			model = nil
+		}
+	}
+	check("final")
+}
+
+func VerifC16GenLeaves()   { vMode = 5; VerifC01GenLeaves() }
+func VerifC16PlainLeaves() { vMode = 5; VerifC01PlainLeaves() }
+func VerifC16Composites()  { vMode = 5; VerifC01Composites() }
